@@ -57,7 +57,7 @@ STRINGS_NONASCII_DIGITS = ['１', '٣', '１２３', '12٣', '৪2']
 
 
 def cases(tier, seed):
-    reps = 6 if tier == 'quick' else 3000
+    reps = 30 if tier == 'quick' else 3000
     out = []
     for rep in range(reps):
         for L in range(0, MAXLEN + 1):
